@@ -54,6 +54,10 @@ pub struct MsgSpec {
     /// the chunk headers / bank name: the pads are those of the PACKET's identity
     #[serde(default)]
     pub packet_identity: Option<(u16, u8)>,
+    /// choose among all 71 boards, installed for the run or not (a message
+    /// without pad channels needs no map; one with pads must then be refused)
+    #[serde(default)]
+    pub any_board: bool,
 }
 #[derive(Clone, Debug, Serialize, Deserialize)]
 pub enum Fault {
@@ -182,7 +186,7 @@ fn build_case(c: &C10Case) -> Built {
     let mut msgs: Vec<(usize, u8, Vec<(u16, Vec<i16>)>)> = Vec::new();
     let mut packet_ids: Vec<(usize, u8)> = Vec::new();
     for m in &c.msgs {
-        let board = if installed.is_empty() { m.board_sel as usize % 71 } else { installed[pick(m.board_sel, installed.len())] };
+        let board = if installed.is_empty() || m.any_board { m.board_sel as usize % 71 } else { installed[pick(m.board_sel, installed.len())] };
         if !seen.insert((board, m.chip % 4)) {
             continue;
         }
@@ -531,9 +535,11 @@ fn fault() -> impl Strategy<Value = Fault> {
 
 fn case() -> impl Strategy<Value = C10Case> {
     let wire = (0u8..8, 0u8..32, prop_oneof![3 => 64u16..=140, 2 => 140u16..=700, 1 => 700u16..=2000], any::<u64>()).prop_map(|(board, channel, len, seed)| WireSpec { board, channel, len, seed });
-    let channels = prop_oneof![3 => vec(1u16..=79, 1..=4), 2 => vec(1u16..=79, 4..=30), 1 => Just((1..=79).collect::<Vec<u16>>()), 1 => Just(vec![])];
-    let msg = (any::<u16>(), 0u8..4, channels, any::<u64>(), prop::option::weighted(0.15, (any::<u16>(), 0u8..4)))
-        .prop_map(|(board_sel, chip, channels, seed, packet_identity)| MsgSpec { board_sel, chip, channels, seed, packet_identity });
+    // readout indices 1, 2, 3 are reset channels and 16, 29, 54, 67 FPN channels: not pads
+    let no_pads = proptest::sample::subsequence(vec![1u16, 2, 3, 16, 29, 54, 67], 1..=7);
+    let channels = prop_oneof![6 => vec(1u16..=79, 1..=4), 4 => vec(1u16..=79, 4..=30), 2 => Just((1..=79).collect::<Vec<u16>>()), 2 => Just(vec![]), 1 => no_pads];
+    let msg = (any::<u16>(), 0u8..4, channels, any::<u64>(), prop::option::weighted(0.15, (any::<u16>(), 0u8..4)), prop::bool::weighted(0.12))
+        .prop_map(|(board_sel, chip, channels, seed, packet_identity, any_board)| MsgSpec { board_sel, chip, channels, seed, packet_identity, any_board });
     let ignored = prop_oneof![
         (0u8..8, 0u8..16, vec(any::<u8>(), 0..=40)).prop_map(|(board, channel, data)| Ignored::BvBank { board, channel, data }),
         vec(any::<u8>(), 0..=40).prop_map(Ignored::Trb3),
